@@ -3,6 +3,29 @@
 From Verif Require Export Base.Prelude Base.StrUtil Base.Index Base.NdArr Model.MapSpec Model.MapSpecSpec
   Model.MapRun Model.MapDenote Model.SymBody Model.RunInfoCodec Model.FSStore.
 
+(* data = json.load(run_info.json); <edit>; json.dump(data) *)
+Inductive mutation :=
+| MNone
+| MDel (k : str)                        (* del data[k] *)
+| MSet (k : str) (j : json)             (* data[k] = j *)
+| MSetIn (k k2 : str) (j : json).       (* data[k][k2] = j *)
+
+Definition mutate_obj (m : mutation) (o : list (str * json)) : list (str * json) :=
+  match m with
+  | MNone => o
+  | MDel k => filter (fun kv => negb (str_eqb (fst kv) k)) o
+  | MSet k j => dict_set o k j
+  | MSetIn k k2 j => map (fun kv => if str_eqb (fst kv) k
+                                    then (fst kv, match snd kv with JObj o2 => JObj (dict_set o2 k2 j) | x => x end)
+                                    else kv) o
+  end.
+Definition mutate_world (m : mutation) (w : world) : world :=
+  match m, fs_get (w_files w) PRunInfo with
+  | MNone, _ => w
+  | _, Some (Json (JObj o)) => write w PRunInfo (Json (JObj (mutate_obj m o)))
+  | _, _ => w
+  end.
+
 Record case := {
   c_funcs : list mfunc;
   c_inputs : env;
@@ -12,7 +35,8 @@ Record case := {
   c_storage : storage_cfg;
   c_persist : bool;                 (* persist_memory *)
   c_fresh : bool;                   (* reload in a fresh interpreter *)
-  c_xr : str                        (* "ok" or the exception class of pipefunc's in-memory xarray labelling *)
+  c_xr : str;                       (* "ok" or the exception class of pipefunc's in-memory xarray labelling *)
+  c_mut : mutation                  (* negative stream: an edit of run_info.json made between the run and the reload *)
 }.
 
 Definition root_name : str := s "F".
@@ -216,7 +240,7 @@ Definition run_with (legacy : bool) (c : case) : sx :=
                       sx_run_info (f_info f);
                       sx_inputs (map (fun kv => (fst kv, PVal (snd kv))) (c_inputs c));
                       sx_defaults (PEnv (pipeline_defaults (c_funcs c))) ] in
-      let w := if c_fresh c then reopen (f_world f) else f_world f in
+      let w := mutate_world (c_mut c) (if c_fresh c then reopen (f_world f) else f_world f) in
       let '(l1, w1) := reload c w in
       let '(l2, w2) := reload c w1 in
       SL [SS (s "ok");
@@ -274,6 +298,7 @@ Definition load_ok (c : case) (ran_outs : list sx) (ran_info ran_inputs ran_defa
 
 Definition spec_ok (c : case) (o : sx) : bool :=
   if negb (request_ok (c_funcs c) (c_inputs c)) then true else
+  match c_mut c with MNone => false | _ => true end ||
   match denote_run sym_body (c_funcs c) (c_inputs c) (c_internal c) with
   | Err _ => true
   | Ok d =>
